@@ -76,6 +76,7 @@ type world struct {
 	rdArr     *gate.Arrival
 	rdRes     *readRes
 	passReads atomic.Bool // reads issued by the checker itself are not scheduled
+	raced     [2]bool     // a flush / compaction swap was let go inside the last DB.Checkpoint call
 	// where the scheduled read of the behaviour is held (Dkv.tla GetHolds / ScanHolds); "between" is the default
 	passBetween atomic.Bool  // this read passes the between-captures gate (it is held somewhere else)
 	snapGid     atomic.Int64 // goroutine of a Get that is to be held inside memtable.List.Get (once)
@@ -320,6 +321,78 @@ func (w *world) bg(action string) error {
 			return err
 		}
 		w.compArr, w.compState = a, "pick"
+	}
+	return nil
+}
+
+// raceCheckpoint calls DB.Checkpoint and, at the first storage call made inside it by the calling goroutine, lets the
+// flush / compaction that is parked before its swap go. If Checkpoint is one critical section the swap has to wait for
+// it; if it is not, the swap lands in the middle. Either way the contents the checkpoint must restore to are those at
+// the call. Afterwards the swap is awaited and accounted for like a FlushSwap / CompactSwap step (the model's own step
+// for it is then skipped).
+func (w *world) raceCheckpoint(id int) {
+	me := gate.Goid()
+	fl, cp := w.flushState == "swap", w.compState == "swap"
+	var once sync.Once
+	w.view.Probe = func(op, path string) {
+		if gate.Goid() != me {
+			return
+		}
+		once.Do(func() {
+			if fl {
+				w.flushArr.Release()
+			}
+			if cp {
+				w.compArr.Release()
+			}
+			// long enough for an unserialised swap to land, short enough to cost nothing when it has to wait
+			dl := time.Now().Add(20 * time.Millisecond)
+			for time.Now().Before(dl) {
+				if (!fl || w.s.Has(isMain(w, "dkv.flush.swapped"))) && (!cp || w.s.Has(isMain(w, "dkv.compact.swapped"))) {
+					break // landed inside the call
+				}
+				time.Sleep(200 * time.Microsecond)
+			}
+		})
+	}
+	w.ckWait[id] = w.db.Checkpoint(uint64(id))
+	w.view.Probe = nil
+	once.Do(func() { // no storage call inside Checkpoint: release now
+		if fl {
+			w.flushArr.Release()
+		}
+		if cp {
+			w.compArr.Release()
+		}
+	})
+	w.raced = [2]bool{fl, cp}
+}
+
+// afterRace completes the bookkeeping of the swaps let go by raceCheckpoint.
+func (w *world) afterRace() error {
+	fl, cp := w.raced[0], w.raced[1]
+	w.raced = [2]bool{}
+	if fl {
+		if _, err := w.s.Await(isMain(w, "dkv.flush.swapped"), wait); err != nil {
+			return err
+		}
+		w.flushState, w.flushArr = "", nil
+		w.pendingFlush--
+		w.pendingComp++
+		w.memCount = w.memTables()
+	}
+	if cp {
+		if _, err := w.s.Await(isMain(w, "dkv.compact.swapped"), wait); err != nil {
+			return err
+		}
+		a, err := w.s.Await(isMain(w, "dkv.compact.pick"), wait)
+		if err != nil {
+			return err
+		}
+		w.compArr, w.compState = a, "pick"
+	}
+	if fl || cp {
+		return w.sync()
 	}
 	return nil
 }
@@ -821,7 +894,12 @@ func replay(bi int, beh []mbt.Step, in *mbt.Input, res *mbt.Result) {
 			id := st.Int("id")
 			w.snap[id] = demandedMap(st, "snap")
 			w.known[id] = true
-			w.ckWait[id] = w.db.Checkpoint(uint64(id))
+			if st.Bool("race") && (w.flushState == "swap" || w.compState == "swap") {
+				w.raceCheckpoint(id)
+				res.Count("checkpoints_raced_with_a_swap", 1)
+			} else {
+				w.ckWait[id] = w.db.Checkpoint(uint64(id))
+			}
 			// the save task parks before saving the WAL (or, should the code skip that, before saving the document)
 			arr, err := w.s.Await(func(a *gate.Arrival) bool {
 				return (isMain(w, "dkv.ckpt.saveWal")(a) || isMain(w, "dkv.ckpt.saveDoc")(a)) && a.Args[1] == any(uint64(id))
@@ -831,6 +909,10 @@ func replay(bi int, beh []mbt.Step, in *mbt.Input, res *mbt.Result) {
 				return
 			}
 			w.ckArr[id] = arr
+			if err := w.afterRace(); err != nil {
+				machinery(si, err)
+				return
+			}
 		case "SaveWal":
 			id := st.Int("id")
 			if w.ckArr[id].Point == "dkv.ckpt.saveDoc" {
